@@ -4,6 +4,7 @@ import (
 	"crypto/ed25519"
 	"encoding/base64"
 	"fmt"
+	"strings"
 	"sort"
 
 	gmsl "github.com/matrix-org/gomatrixserverlib"
@@ -419,11 +420,19 @@ func runC02(c *mon.Ctx) {
 					c.Failf("verify:accepts-identity:"+kind, "VerifyJSON(%q,%q) accepts %q (%s)", name, kid, text, kind)
 				}
 			}
-			if final.Get("signatures").Get(last.name + "x") == nil {
-				chk("other-name", last.name+"x", last.kid, last.pub, t)
+			// "every other name": not only unrelated names but names a lenient comparison would equate
+			for kind, nm := range map[string]string{"other-name": last.name + "x", "name-upper-case": strings.ToUpper(last.name), "name-lower-case": strings.ToLower(last.name),
+				"name-title-case": strings.ToUpper(last.name[:1]) + last.name[1:], "name-trailing-dot": last.name + ".", "name-prefix": last.name[:len(last.name)-1],
+				"name-trailing-space": last.name + " ", "name-leading-space": " " + last.name, "name-empty": "", "name-nul-suffix": last.name + "\x00"} {
+				if nm != last.name && final.Get("signatures").Get(nm) == nil {
+					chk(kind, nm, last.kid, last.pub, t)
+				}
 			}
-			if final.Get("signatures").Get(last.name).Get(string(last.kid)+"x") == nil {
-				chk("other-key-id", last.name, last.kid+"x", last.pub, t)
+			for kind, kid := range map[string]string{"other-key-id": string(last.kid) + "x", "key-id-upper-case": strings.ToUpper(string(last.kid)), "key-id-lower-case": strings.ToLower(string(last.kid)),
+				"key-id-prefix": string(last.kid)[:len(last.kid)-1], "key-id-trailing-space": string(last.kid) + " ", "key-id-empty": ""} {
+				if kid != string(last.kid) && final.Get("signatures").Get(last.name).Get(kid) == nil {
+					chk(kind, last.name, gmsl.KeyID(kid), last.pub, t)
+				}
 			}
 			chk("other-public-key", last.name, last.kid, other.pub, t)
 			// signature bit flip / truncation
